@@ -2497,6 +2497,23 @@ class Trimesh(Geometry3D):
                 )
             )
 
+        # values which don't depend on vertex positions
+        topology = {
+            "face_adjacency",
+            "face_adjacency_edges",
+            "face_adjacency_unshared",
+            "edges",
+            "edges_face",
+            "edges_sorted",
+            "edges_unique",
+            "edges_unique_idx",
+            "edges_unique_inverse",
+            "edges_sparse",
+            "body_count",
+            "faces_unique_edges",
+            "euler_number",
+        }
+
         # if transformation flips winding of triangles
         if has_rotation and transformations.flips_winding(matrix):
             log.debug("transform flips winding")
@@ -2504,6 +2521,9 @@ class Trimesh(Geometry3D):
             # which will cause hashes to be more
             # expensive than necessary so wrap
             self.faces = np.ascontiguousarray(np.fliplr(self.faces))
+            # edges and everything ordered like them follow
+            # the columns of faces which were just reversed
+            topology = {"body_count", "euler_number"}
 
         # assign the new values
         self.vertices = new_vertices
@@ -2514,20 +2534,7 @@ class Trimesh(Geometry3D):
             exclude={
                 "face_normals",  # transformed by us
                 "vertex_normals",  # also transformed by us
-                "face_adjacency",  # topological
-                "face_adjacency_edges",
-                "face_adjacency_unshared",
-                "edges",
-                "edges_face",
-                "edges_sorted",
-                "edges_unique",
-                "edges_unique_idx",
-                "edges_unique_inverse",
-                "edges_sparse",
-                "body_count",
-                "faces_unique_edges",
-                "euler_number",
-            }
+            }.union(topology)
         )
         # set the cache ID with the current hash value
         self._cache.id_set()
